@@ -28,17 +28,45 @@ pub struct Config {
 /// Raw configuration as parsed from TOML (before validation).
 #[derive(Debug, Deserialize, Default)]
 struct RawConfig {
-    #[serde(default)]
+    #[serde(default, deserialize_with = "lenient_string_list")]
     exclude: Vec<String>,
 
-    #[serde(default)]
+    #[serde(default, deserialize_with = "lenient_string_list")]
     disabled_diagnostics: Vec<String>,
 
-    #[serde(default)]
+    #[serde(default, deserialize_with = "lenient_string_list")]
     fixture_paths: Vec<String>,
 
-    #[serde(default)]
+    #[serde(default, deserialize_with = "lenient_string_list")]
     skip_plugins: Vec<String>,
+}
+
+/// Read a list of strings, ignoring what is not one: a setting of the wrong type, or a
+/// non-string entry in the list, is skipped on its own and must not make the whole
+/// `[tool.pytest-language-server]` table fall back to the defaults.
+fn lenient_string_list<'de, D>(deserializer: D) -> Result<Vec<String>, D::Error>
+where
+    D: serde::Deserializer<'de>,
+{
+    Ok(match toml::Value::deserialize(deserializer)? {
+        toml::Value::Array(items) => items
+            .into_iter()
+            .filter_map(|item| match item {
+                toml::Value::String(s) => Some(s),
+                other => {
+                    warn!("Ignoring non-string entry {} in pyproject.toml", other);
+                    None
+                }
+            })
+            .collect(),
+        other => {
+            warn!(
+                "Ignoring setting of type {} in pyproject.toml, expected a list of strings",
+                other.type_str()
+            );
+            Vec::new()
+        }
+    })
 }
 
 /// Wrapper for the pyproject.toml structure.
